@@ -95,12 +95,13 @@ def stable_desc(body, op, depth=0):
         if c.const_item:
             return "const:" + c.const_item.split("::")[-1]
         return "const:%s" % (c.scalar,)
+    # no variable names in keys: renaming a local or a parameter must not change them
     if k == "param":
-        return "param:%s" % (t.root[2] or t.root[1])
+        return "param#%s" % t.root[1]
     if k == "upvar":
-        return "upvar:%s" % t.root[1]
+        return "upvar"
     if k in ("multi", "undef"):
-        return "local:%s" % (t.root[2] or "tmp")
+        return "local"
     if k == "call":
         return "call:" + short_callee(t.root[1].resolved)
     if k == "rv" and depth < 4:
@@ -415,10 +416,10 @@ def try_discharge(body, site, bounds):
                 truth = (lab[1] != 0) if lab[0] == "val" else (0 in lab[1])
                 if neg:
                     truth = not truth
-                ta, tb = trace(body, c.a), trace(body, c.b)
-                if ta.describe() == ot.describe() and len_of(body, c.b) == ck:
-                    if (c.op == "Ge" and not truth) or (c.op == "Lt" and truth) or (c.op == "Gt" and not truth) or (c.op == "Le" and truth):
-                        okg = True
+                from .flow import ordering
+                lo, hi, strict = ordering(c, truth)
+                if trace(body, lo).describe() == ot.describe() and len_of(body, hi) == ck:
+                    okg = True  # bound <= len (or < len) however the test is written
             if okg:
                 reasons.append("%s < len by the dominating comparison" % name)
                 continue
